@@ -234,9 +234,11 @@ func l0Plan(thorough bool) *plan {
 				maxOut = 2
 			}
 			if thorough {
-				maxOut = 2
-				if n <= 3 {
+				switch {
+				case n <= 3:
 					maxOut = 3
+				case n == 4:
+					maxOut = 2
 				}
 			}
 			p.stratified(c, n, maxOut, full, othersAlpha, "L0")
@@ -263,9 +265,11 @@ func rawPlan(thorough bool) *plan {
 				maxOut = 2
 			}
 			if thorough {
-				maxOut = 2
-				if n <= 3 {
+				switch {
+				case n <= 3:
 					maxOut = 3
+				case n == 4:
+					maxOut = 2
 				}
 			}
 			p.stratified(c, n, maxOut, f0, formOthersAlpha, "RAW")
@@ -527,7 +531,9 @@ func buildSpace(name string, thorough bool, aux auxData) (*space, error) {
 		return &space{Name: name, Size: size, Batch: 1, Heavy: true, Case: func(i int64) kase {
 			g := evalGens[int(i)/len(ds)]
 			d := ds[int(i)%len(ds)]
-			return kase{Space: name, Idx: i, Mode: "readload", Limits: "fuzz", Stratum: fmt.Sprintf("%s/d=%d", g.name, d), Src: g.prog(d)}
+			k := kase{Space: name, Idx: i, Mode: "readload", Limits: "fuzz", Stratum: fmt.Sprintf("%s/d=%d", g.name, d)}
+			k.setSrc(g.prog(d))
+			return k
 		}}, nil
 	case "gen-value":
 		ds := depthsFor(thorough)
